@@ -322,6 +322,14 @@ def rule_R4(text, log):
         if toks[j].text in OPEN:
             j = match_close(toks, j)
         j += 1
+    # `mut self` by value: Verus rejects it; rename the receiver inside the body
+    if toks[po + 1].text == 'mut' and toks[po + 2].text == 'self' and toks[po + 3].text in (',', ')'):
+        edits.append(Edit(toks[po + 1].start, toks[po + 2].start, '', 'R4', ''))
+        lets.insert(0, 'let mut self__m = self;')
+        for q in range(bo + 1, bc):
+            if toks[q].kind == 'ident' and toks[q].text == 'self':
+                edits.append(Edit(toks[q].start, toks[q].end, 'self__m', 'R4', ''))
+        log.append(('R4', 'mut self', 'self + let mut self__m = self; (receiver renamed in the body)'))
     if lets:
         edits.append(Edit(toks[bo].end, toks[bo].end, '\n    ' + ' '.join(lets), 'R4', ''))
     return apply_edits(text, edits)
